@@ -17,7 +17,7 @@ for seed in seeds:
             runs.append({"command": "VERIF_SEED=%d ./check %s %s" % (seed, m.group(2), m.group(3)), "exit": int(m.group(4)),
                          "violation_lines": int(m.group(5)), "first_violation_line": first,
                          "no_failing_input_found": "no-failing-input-found" in m.group(6), "summary": m.group(7)})
-assert subprocess.check_output(["git", "-C", "/repo", "status", "--porcelain"]).decode().strip() == "", "/repo not restored"
+assert subprocess.check_output(["git", "-C", os.environ.get("SEED_REPO", "/repo"), "status", "--porcelain"]).decode().strip() == "", "repo not restored"
 meta = {"id": sid, "breaks_property": sid[:3], "change": change, "needs_to_manifest": needs,
         "confirmed": "harness/seed_verify.sh %s in a scratch worktree of /repo under /tmp (%s): demo exits 0 on the unchanged tree, non-zero with the change; "
                      "the 43-test suite passes with the change" % (sid, sid[:3]),
